@@ -11,7 +11,7 @@
    tuple-to-userset one edge per distinct parent type labelled "type#tupleset", a computed userset a
    computed/rewrite edge by the kinds of its end points; no other list is touched.  The implementation's graph is
    compared with [wbuild] and, independently, decoded against the model (run/lib/graphspec.check_structure). *)
-From Verif Require Import Base.Str Base.Outcome Model.Ast Model.Printer Model.WGraph Spec.GraphWeights Proofs.WGraphProofs Proofs.BuilderFresh Spec.GraphShape Proofs.BuilderShape Proofs.ShapeLists Proofs.Witnesses.
+From Verif Require Import Base.Str Base.Outcome Model.Ast Model.Printer Model.WGraph Spec.GraphWeights Proofs.WGraphProofs Proofs.BuilderFresh Spec.GraphShape Proofs.BuilderShape Proofs.ShapeLists Proofs.Witnesses Proofs.BuilderValid.
 
 (* 1. a type, relation, referenced userset or wildcard never gets two nodes *)
 Theorem C10_one_node_per_label : forall m g, wbuild m = Ok g -> NoDup (map n_id (g_nodes g)).
@@ -119,3 +119,7 @@ Proof.
   destruct (wbuild_shape m_good g E ltac:(vm_compute; reflexivity) td r u Htd Hu) as [k Hk]. exists k.
   destruct (shape (ty_of g) td r k (td_name td ++ lit "#" ++ r) u []) as [[l c] k']. cbn. symmetry. exact (proj1 Hk).
 Qed.
+
+(* 11. which models have a graph at all ("for every accepted model"): those without a dangling tuple-to-userset *)
+Theorem C10_builder_accepts_iff_references_resolve : forall m, is_ok (wbuild m) = model_valid m.
+Proof. exact wbuild_ok_iff_valid. Qed.
